@@ -200,7 +200,7 @@ def replay_pair(pair, K, mv, reg_init='reset', default_value=0, memkeyB=None, ki
             else:
                 for i, bn in enumerate(bl):
                     rmap[B.wirevector_by_name[bn]] = (aval >> i) & 1
-    memkeyB = memkeyB or (lambda m: m)
+    memkeyB = memkeyB or simdrv.default_memkey(B)
     for mid, m in simdrv.mems_of(B).items():
         mmap[memkeyB(m)] = {int(a): x for a, x in mv.get('mems', {}).get(m.name, {}).items()}
     tracked = list(B.wirevector_subset((pyrtl.Input, pyrtl.Output)))
